@@ -211,7 +211,7 @@ struct Run {
         bool cauth = (pl.cfg & 4) && su.auth != AUTH_PSK;
         desc = fmt("%s victim=%s suite=%s cauth=%d pmtu=%s", ver_name(ver), vclient ? "client" : "server", su.name, cauth, (pl.cfg & 8) ? "400" : "default");
         if (c.verbose && stats) fprintf(stderr, "case: %s\n", desc.c_str());
-        vfh_entropy_reset(5200 + pl.cfg); vfh_clock_set_ms(1000000); if (getenv("C08_TRACE")) { vfh_trace = 1; fprintf(stderr, "=== run fill %02x\n", fill); }
+        vfh_entropy_reset(5200 + pl.cfg); vfh_clock_set_ms(1000000);
         matrixSslClose(); matrixSslOpen();
         matrixDtlsSetPmtu((pl.cfg & 8) ? 400 : -1);
         c08_fill_byte = fill; c08_fill_on = 1;
